@@ -79,6 +79,8 @@ class Universe:
             return 'construction'
         if fi.key in self.payload_ov:
             return 'payload'
+        if fi.name == '__init__' and fi.is_method:
+            return 'init'
         if mod.startswith('yaql.standard_library'):
             if top.name.startswith('register'):
                 return 'register'
